@@ -36,7 +36,18 @@ type scalarCase struct {
 }
 
 // checkScalar evaluates one function on one operand against its mathematical definition.
-func checkScalar(c *scalarCase) (string, string) {
+// checkScalar: a routine that faults on an operand of its domain (a division by zero, an index out of a table) is a
+// violation for that operand, not a crash of the sweep.
+func checkScalar(c *scalarCase) (key, msg string) {
+	defer func() {
+		if v := recover(); v != nil {
+			key, msg = c.Func+"/fault", fmt.Sprintf("%s(%d,%d) raised %v", c.Func, c.A, c.B, v)
+		}
+	}()
+	return checkScalarInner(c)
+}
+
+func checkScalarInner(c *scalarCase) (string, string) {
 	a := int32(c.A)
 	switch c.Func {
 	case "power2Round":
